@@ -140,47 +140,51 @@ Definition rescale_api (s : Q) (p : opose) : opose :=
 
 (* ------------------------------------------------------------------ 4. histories on the same objects
    A PoseTransform object holds nothing but its current (r, t): what inverse / compose / transform_points
-   return is a function of the CURRENT values of their operands, whatever was called before, they create a
-   new object and change no existing one; rescale changes its target only.  The store is the list of live
-   objects (index = identity, results are appended).  None = the call raised or produced NaN; such steps
-   are not continued.  Aliasing is not modelled: compose([p]) returns p itself in the code, here a copy; the
-   harness does not use one-element compose inside histories. *)
+   return is a function of the CURRENT values of their operands, whatever was called before.
+   Object IDENTITY is part of the store: a program names HANDLES (the initial poses, then one handle per
+   inverse / compose call, in order); each handle carries the object it denotes, written as the smallest handle
+   denoting the same Python object (its canonical handle), and that object's value.
+     inverse(p)                  a FRESH object (canonical handle = its own)
+     compose of >= 2 poses       a FRESH object, whatever the operands are (identity poses included)
+     compose([p])                p ITSELF (pose_list[0] is returned): the new handle is an alias of p
+     rescale(p, s)               changes the object of p, hence every handle that denotes it, and nothing else
+   so rescaling the result of inverse / compose(>= 2) can never change an operand (PPose.rescale_result_keeps_operands).
+   None = the call raised or produced NaN; such steps are not continued. *)
 Inductive hop :=
 | HInverse (i : nat)
 | HCompose (ids : list nat)
 | HRescale (i : nat) (s : Q).
+
+Definition store := list (nat * opose).     (* per handle: canonical handle, value *)
 
 Fixpoint nths {A} (l : list A) (ids : list nat) : option (list A) :=
   match ids with
   | [] => Some []
   | i :: ids' => match nth_error l i, nths l ids' with Some x, Some xs => Some (x :: xs) | _, _ => None end
   end.
-Fixpoint set_nth {A} (l : list A) (i : nat) (x : A) : list A :=
-  match l, i with
-  | [], _ => []
-  | _ :: l', O => x :: l'
-  | y :: l', S i' => y :: set_nth l' i' x
-  end.
-Definition hstep (st : list opose) (op : hop) : option (list opose) :=
+Definition hstep (st : store) (op : hop) : option store :=
   match op with
   | HInverse i =>
       match nth_error st i with
-      | Some p => match inverse_api p with Ok m => Some (st ++ [m]) | _ => None end
+      | Some (_, p) => match inverse_api p with Ok m => Some (st ++ [(length st, m)]) | _ => None end
       | None => None
       end
   | HCompose ids =>
       match nths st ids with
-      | Some ps => match compose_api ps with Ok m => Some (st ++ [m]) | _ => None end
+      | Some [(c, p)] => Some (st ++ [(c, p)])
+      | Some es => match compose_api (map snd es) with Ok m => Some (st ++ [(length st, m)]) | _ => None end
       | None => None
       end
   | HRescale i s =>
       match nth_error st i with
-      | Some p => Some (set_nth st i (rescale_api s p))
+      | Some (c, _) => Some (map (fun e => if Nat.eqb (fst e) c then (fst e, rescale_api s (snd e)) else e) st)
       | None => None
       end
   end.
-Definition hrun (st : list opose) (ops : list hop) : option (list opose) :=
+Definition hrun (st : store) (ops : list hop) : option store :=
   fold_left (fun acc op => match acc with Some s => hstep s op | None => None end) ops (Some st).
+(* canonical handles never point forward; initial stores of distinct objects are (k, v_k) *)
+Definition wf_store (st : store) : Prop := forall k c p, nth_error st k = Some (c, p) -> (c <= k)%nat.
 
 (* ------------------------------------------------------------------ correspondence
    One case = a list of calls made on the real implementation, each with what it returned.  The model's
@@ -206,9 +210,10 @@ Inductive call :=
        and a deviation of the implementation at any step still shows at that step. *)
 | CInverse (p : opose) (o : outcome opose)
 | CTransform (p : opose) (rows : list (list Q)) (o : outcome (list vec))
-| CHistory (st : list opose) (steps : list (list hop * option (list opose))).
-    (* a program run on the SAME PoseTransform objects: st = their values at the start, and for every step (one
-       call, or the calls one Trajectories-level function makes) the values of ALL live objects observed after it
+| CHistory (st : store) (steps : list (list hop * option store)).
+    (* a program run on the SAME PoseTransform objects: st = their identities and values at the start, and for
+       every step (one call, or the calls one Trajectories-level function makes) the identity (which handles are
+       the same Python object or share a mutable part) and value of EVERY handle observed after it
        (None: the step raised / returned NaN).  Each step is checked as hrun applied to the store observed before it (same reason as CChain): the new object must be
        the model's function of the current operand values, every other object must be unchanged, rescale must
        change its target only.  A result that depends on an earlier call (a stale cache) fails here. *)
@@ -255,34 +260,36 @@ Definition qeqb (a b : quat) : bool :=
 Definition veqb (a b : vec) : bool := Qeq_bool (vx a) (vx b) && Qeq_bool (vy a) (vy b) && Qeq_bool (vz a) (vz b).
 Definition opose_eqb (a b : opose) : bool := opt_close qeqb (o_r a) (o_r b) && opt_close veqb (o_t a) (o_t b).
 (* object by object; identical values (the common case: untouched objects) are recognised without arithmetic *)
-Fixpoint store_close (ms os : list opose) : bool :=
+Fixpoint store_close (ms os : store) : bool :=
   match ms, os with
   | [], [] => true
-  | m :: ms', o :: os' => (opose_eqb m o || opose_close (tscale [m]) m o) && store_close ms' os'
+  | (cm, m) :: ms', (co, o) :: os' =>
+      Nat.eqb cm co && (opose_eqb m o || opose_close (tscale [m]) m o) && store_close ms' os'
   | _, _ => false
   end.
-(* after one inverse / compose the store is the old one, untouched, plus one object compared by cl *)
-Fixpoint store_close_last (cl : opose -> opose -> bool) (ms os : list opose) : bool :=
+(* after one inverse / compose the store is the old one, untouched, plus one handle compared by cl; the identity
+   of the new handle (fresh, or alias of an operand for a one-element compose) must be the model's *)
+Fixpoint store_close_last (cl : opose -> opose -> bool) (ms os : store) : bool :=
   match ms, os with
-  | [m], [o] => cl m o
-  | m :: ms', o :: os' => opose_eqb m o && store_close_last cl ms' os'
+  | [(cm, m)], [(co, o)] => Nat.eqb cm co && cl m o
+  | (cm, m) :: ms', (co, o) :: os' => Nat.eqb cm co && opose_eqb m o && store_close_last cl ms' os'
   | _, _ => false
   end.
-Definition step_close (st : list opose) (ops : list hop) (ms os : list opose) : bool :=
+Definition step_close (st : store) (ops : list hop) (ms os : store) : bool :=
   match ops with
   | [HInverse i] =>      (* rotation of conj r_i, translation relative to |t_i| *)
       match nth_error st i with
-      | Some p => store_close_last (fun m o => opose_close_with (option_map qconj (o_r p)) (tscale [p]) m o) ms os
+      | Some (_, p) => store_close_last (fun m o => opose_close_with (option_map qconj (o_r p)) (tscale [p]) m o) ms os
       | None => false
       end
   | [HCompose ids] =>    (* translation relative to the operands' translations (the result may cancel to ~0) *)
       match nths st ids with
-      | Some ps => store_close_last (opose_close (tscale ps)) ms os
+      | Some es => store_close_last (opose_close (tscale (map snd es))) ms os
       | None => false
       end
   | _ => store_close ms os
   end.
-Fixpoint history_ok (st : list opose) (steps : list (list hop * option (list opose))) : bool :=
+Fixpoint history_ok (st : store) (steps : list (list hop * option store)) : bool :=
   match steps with
   | [] => true
   | (ops, obs) :: rest =>
